@@ -310,6 +310,7 @@ def rekey_cases(res, lean, r):
         ino._wd_for_path = {k: i + 1 for i, k in enumerate(keys)}
         ino._path_for_wd = {i + 1: k for i, k in enumerate(keys)}
         ino._moved_from_events = {}
+        ino._moved_from_wds = {}
         ino._is_recursive = True
         ino._path = b"w"
         ino._event_mask = 0
